@@ -395,6 +395,18 @@ func without(idx []int, drop []int) []int {
 var stampRe = regexp.MustCompile(`(?m)^\d{4}/\d\d/\d\d \d\d:\d\d:\d\d `)
 
 // trunc also drops the log time stamps of gombok's diagnostics (evidence must not depend on the clock).
+var crashRe = regexp.MustCompile(`(?m)^panic: |^goroutine \d+ \[running\]|runtime error: |^fatal error: `)
+
+// gombokFailure classifies a non-zero exit of gombok on one declaration: a Go panic / fatal error
+// (stack trace) is a crash of the generator, anything else a diagnostic with which it refuses the
+// declaration.
+func gombokFailure(out string) string {
+	if crashRe.MatchString(out) {
+		return "generator-crash"
+	}
+	return "rejected"
+}
+
 func trunc(s string, n int) string {
 	s = stampRe.ReplaceAllString(s, "")
 	if len(s) > n {
@@ -481,7 +493,7 @@ func RunPackage(p *Package) *PkgResult {
 				one := r.tryUpTo(fmt.Sprintf("r%d", r.subN), []int{i}, "gombok")
 				if one.stage == "gombok" {
 					bad = append(bad, i)
-					results[i].Status = "rejected"
+					results[i].Status = gombokFailure(one.out)
 					results[i].Detail = trunc(one.out, 2000)
 					results[i].Singled = true
 				}
@@ -551,7 +563,7 @@ func RunPackage(p *Package) *PkgResult {
 			results[i].LawOnly = !strings.Contains(a.out, genFile+":")
 			results[i].Detail = trunc(structRe.ReplaceAllString(generatedFirst(a.out), "S"), 3000)
 		case "gombok":
-			results[i].Status = "rejected"
+			results[i].Status = gombokFailure(a.out)
 			results[i].Detail = trunc(a.out, 2000)
 		case "ok":
 			internalf("package %s: %s was blamed for a compile failure of the batch but compiles alone", p.Name, p.Shapes[i].ID)
